@@ -59,6 +59,10 @@ def gen_ast(rng, na=None, S=None, P=None, L=None, two_sided_lists=True, maxS=5, 
             uq = cap() + (rng.randint(0, 2) if rng.random() < 0.5 else 0)
             tg = rng.randint(0, uq)
             lq = rng.randint(0, tg) if (lower and rng.random() < 0.2) else 0
+            if rng.random() < 0.06:
+                # the importer does not check lower <= target <= upper: a target above the upper quota (not a
+                # well-formed instance: the specifications skip it, the correspondences do not)
+                tg = uq + rng.randint(1, 2)
         studs = [s for s in range(1, S + 1)
                  if any(proj_lec[p - 1] == k for g in first[s - 1] for p in g)]
         rng.shuffle(studs)
@@ -101,8 +105,9 @@ TRAILER = ('\ninstance generation parameters\nnumber_of_agents_type_1: 3\nmin_pr
 
 
 def render(ast, rng=None, trailer=False, final_newline=True):
-    """Documented format. With rng: arbitrary runs of blanks/tabs between tokens, optional leading/trailing
-    blanks, leading zeros on some numbers."""
+    """Documented format. With rng: arbitrary runs of blanks/tabs (sometimes the other characters str.split() takes
+    for whitespace: form feed, vertical tab, 0x1c-0x1f) between tokens, optional
+    leading/trailing blanks, leading zeros on some numbers."""
     out = []
     for toks in ast_lines(ast):
         if rng is None:
@@ -111,7 +116,8 @@ def render(ast, rng=None, trailer=False, final_newline=True):
             s = rng.choice(['', '', ' ', '\t'])
             for i, t in enumerate(toks):
                 if i:
-                    s += rng.choice([' ', ' ', '  ', '\t', ' \t ', '   '])
+                    s += rng.choice([' ', ' ', '  ', '\t', ' \t ', '   ', ' ', '\t',
+                                     rng.choice(['\x0c', '\x0b', ' \x0c', '\x1c', '\x1f ', '\x1d\x1e'])])   # str.split() whitespace
                 if rng.random() < 0.1 and t[0].isdigit():
                     t = '0' * rng.randint(1, 2) + t
                 s += t
